@@ -99,6 +99,9 @@ type Exec struct {
 	nPre map[string]int
 	nNoPanic int
 	closureVar map[types.Object]*FuncInfo
+	aliasHook  func(*State)
+	loopOrd    map[ast.Node]string
+	loopStack  [][]int
 	stmtsSeen, stmtsLowered, stmtsDropped int
 	loweredSet map[token.Pos]bool
 	calleesUsed map[string]bool
@@ -340,6 +343,7 @@ func verifyFunction(u *Universe, fi *FuncInfo, c *Contract) (obls []*Obligation,
 	// vacuity: the precondition must be satisfiable
 	x.obls = append(x.obls, &Obligation{Func: fi.Name, Name: fi.Name + "#vacuity#entry", Kind: "vacuity", Hyps: append([]*Term(nil), st.pc...), Goal: False, Mode: x.mode, ExpectSat: true, Text: "precondition satisfiable", Pos: c.Pos, LemmaIndex: -1})
 	x.stmtsSeen = countStmts(fi.Body)
+	x.computeLoopOrdinals()
 	outs := x.execBlock(st, fi.Body.List, entry)
 	// falling off the end = return without values
 	for _, o := range outs.normal {
@@ -491,7 +495,7 @@ func (x *Exec) merge(states []*State) []*State {
 	if len(states) <= 1 {
 		return states
 	}
-	if x.c.Options["paths-in-loops"] && len(x.loopPath) > 0 && len(states) <= 8 {
+	if x.c.Options["paths-in-loops"] && len(x.loopPath) > 0 && len(states) <= 10 {
 		return states // keep the paths of a loop body separate: smaller, more ground queries
 	}
 	// common prefix of pcs
@@ -1503,6 +1507,66 @@ func (x *Exec) loopOrdinal() string {
 	return strings.Join(parts, ".")
 }
 
+// computeLoopOrdinals assigns every loop its ordinal by source order and nesting ("1", "1.1", "2", ...).
+func (x *Exec) computeLoopOrdinals() {
+	x.loopOrd = map[ast.Node]string{}
+	var walk func(n ast.Node, prefix string)
+	walk = func(n ast.Node, prefix string) {
+		count := 0
+		var visit func(m ast.Node) bool
+		visit = func(m ast.Node) bool {
+			if m == nil {
+				return true
+			}
+			if _, ok := m.(*ast.FuncLit); ok {
+				return false
+			}
+			switch l := m.(type) {
+			case *ast.ForStmt, *ast.RangeStmt:
+				if m == n {
+					return true
+				}
+				count++
+				ord := fmt.Sprint(count)
+				if prefix != "" {
+					ord = prefix + "." + ord
+				}
+				x.loopOrd[l] = ord
+				walk(l, ord)
+				return false
+			}
+			return true
+		}
+		switch l := n.(type) {
+		case *ast.ForStmt:
+			ast.Inspect(l.Body, visit)
+		case *ast.RangeStmt:
+			ast.Inspect(l.Body, visit)
+		default:
+			ast.Inspect(n, visit)
+		}
+	}
+	walk(x.fi.Body, "")
+}
+
+func (x *Exec) enterLoopNode(n ast.Node) string {
+	ord := x.loopOrd[n]
+	var path []int
+	for _, p := range strings.Split(ord, ".") {
+		v := 0
+		fmt.Sscan(p, &v)
+		path = append(path, v)
+	}
+	x.loopStack = append(x.loopStack, x.loopPath)
+	x.loopPath = path
+	return ord
+}
+
+func (x *Exec) leaveLoopNode() {
+	x.loopPath = x.loopStack[len(x.loopStack)-1]
+	x.loopStack = x.loopStack[:len(x.loopStack)-1]
+}
+
 func (x *Exec) enterLoop() string {
 	depth := len(x.loopPath)
 	for len(x.loopCount) <= depth {
@@ -1611,6 +1675,9 @@ func (x *Exec) checkInvariants(s *State, entry *State, lc *loopCtx, phase string
 	if lc.spec == nil {
 		return
 	}
+	if x.aliasHook != nil {
+		x.aliasHook(s)
+	}
 	env := x.envFor(s, entry, lc.pos)
 	for k, v := range lc.pseudo {
 		env.bound[k] = v
@@ -1632,6 +1699,9 @@ func (x *Exec) assumeInvariants(s *State, entry *State, lc *loopCtx) {
 	if lc.spec == nil {
 		return
 	}
+	if x.aliasHook != nil {
+		x.aliasHook(s)
+	}
 	env := x.envFor(s, entry, lc.pos)
 	for k, v := range lc.pseudo {
 		env.bound[k] = v
@@ -1652,8 +1722,8 @@ func (x *Exec) assumeInvariants(s *State, entry *State, lc *loopCtx) {
 func (x *Exec) runLoop(s *State, entry *State, node ast.Node, bodyNode ast.Node, pseudoInit map[string]*Term,
 	cond func(s *State) *Term, enterBody func(s *State), body []ast.Stmt, post func(s *State), exitAssume func(s *State)) outcomes {
 
-	ord := x.enterLoop()
-	defer x.leaveLoop()
+	ord := x.enterLoopNode(node)
+	defer x.leaveLoopNode()
 	lc := &loopCtx{ord: ord, pos: bodyNode.Pos(), pseudo: map[string]*Term{}}
 	if x.c.Loops != nil {
 		lc.spec = x.c.Loops[ord]
@@ -1661,9 +1731,22 @@ func (x *Exec) runLoop(s *State, entry *State, node ast.Node, bodyNode ast.Node,
 	if lc.spec == nil && !x.suppress {
 		x.assumptions["loop "+ord+" of "+x.fi.Name+" has no invariant: everything it modifies is unknown after it"] = true
 	}
+	ordSuffix := "_" + strings.ReplaceAll(ord, ".", "_")
 	for k, v := range pseudoInit {
 		s.pseudo[k] = v
 	}
+	// ordinal-suffixed aliases ($idx_1, $range_1_1) let inner invariants speak about outer loops
+	aliases := func(st *State) {
+		for _, k := range []string{"$idx", "$range", "$len", "$visited", "$dom", "$key", "$val"} {
+			if v, ok := st.pseudo[k]; ok {
+				st.pseudo[k+ordSuffix] = v
+			}
+		}
+	}
+	aliases(s)
+	origCheck := x.aliasHook
+	x.aliasHook = aliases
+	defer func() { x.aliasHook = origCheck }()
 	// 1. invariant holds on entry
 	x.checkInvariants(s, entry, lc, "init")
 
@@ -1742,10 +1825,37 @@ func (x *Exec) runLoop(s *State, entry *State, node ast.Node, bodyNode ast.Node,
 	res := outcomes{}
 	after := append([]*State{exit}, o.brk...)
 	for _, a := range after {
-		a.pseudo = map[string]*Term{}
+		np := map[string]*Term{}
+		for k, v := range s.pseudo {
+			if strings.Contains(k, "_") && !strings.HasSuffix(k, ordSuffix) {
+				np[k] = v
+			}
+		}
+		a.pseudo = np
+		x.restoreInnermostAliases(a)
 	}
 	res.normal = x.merge(after)
 	return res
+}
+
+// restoreInnermostAliases re-creates the unsuffixed pseudo variables from the innermost enclosing loop.
+func (x *Exec) restoreInnermostAliases(st *State) {
+	if len(x.loopPath) <= 1 {
+		return
+	}
+	parts := make([]string, len(x.loopPath)-1)
+	for i, p := range x.loopPath[:len(x.loopPath)-1] {
+		parts[i] = fmt.Sprint(p)
+	}
+	suffix := "_" + strings.Join(parts, "_")
+	for k, v := range st.pseudo {
+		if strings.HasSuffix(k, suffix) {
+			base := strings.TrimSuffix(k, suffix)
+			if !strings.Contains(base, "_") {
+				st.pseudo[base] = v
+			}
+		}
+	}
 }
 
 func (x *Exec) copyFresh() map[string]int {
@@ -1847,6 +1957,7 @@ func (x *Exec) execRange(s *State, st *ast.RangeStmt, entry *State) outcomes {
 		}
 		post := func(e *State) { e.pseudo["$idx"] = Add(e.pseudo["$idx"], Num(1)) }
 		s.pseudo["$len"] = sliceLen(sl)
+		s.pseudo["$range"] = sl
 		return x.runLoop(s, entry, st, st.Body, map[string]*Term{"$idx": idx0}, cond, enter, st.Body.List, post, nil)
 	case *types.Map:
 		m := x.eval(s, st.X)
